@@ -285,6 +285,7 @@ package tree
 //@   send stats [error_of_the_input_tree_reaches_the_caller] treeV.Err != nil ==> msg.Err != nil
 //@   send stats [record_carries_the_tree_identifier] msg.Id == treeV.Id
 //@   send stats [identical_implies_no_specific_branch] msg.Err == nil && msg.Sametree ==> len(msg.Tree1) == 0 && len(msg.Tree2) == 0
+//@   send stats [the_lists_sent_are_not_reused_for_the_next_tree] (arr(msg.Tree1) == 0 || freshsince(1, msg.Tree1)) && (arr(msg.Tree2) == 0 || freshsince(1, msg.Tree2)) && (arr(msg.Common) == 0 || freshsince(1, msg.Common))
 //@   loop 1
 //@     invariant [one_record_per_received_tree] ghost(ch_sent) == ghost(ch_recv) + lold(ghost(ch_sent)) - lold(ghost(ch_recv))
 //@     invariant [captured_unchanged] compTrees == lold(compTrees) && stats == lold(stats) && refTree == lold(refTree) && refIndex == lold(refIndex) && refEdges == lold(refEdges)
@@ -295,8 +296,10 @@ package tree
 //@     invariant [reference_branches_intact] forall k int :: 0 <= k && k < len(refEdges) ==> refEdges[k] != nil && refEdges[k].right != nil
 //@   loop 3
 //@     invariant [identical_so_far_implies_nothing_specific] sametree ==> len(Comp) == 0
+//@     invariant [lists_built_for_this_tree_only] (arr(Common) == 0 || freshsince(1, Common)) && (arr(Comp) == 0 || freshsince(1, Comp)) && (arr(Ref) == 0 || freshsince(1, Ref))
 //@   loop 4
 //@     invariant [identical_so_far_implies_nothing_specific] sametree ==> len(Comp) == 0 && len(Ref) == 0
+//@     invariant [lists_built_for_this_tree_only] (arr(Common) == 0 || freshsince(1, Common)) && (arr(Comp) == 0 || freshsince(1, Comp)) && (arr(Ref) == 0 || freshsince(1, Ref))
 
 //@ func tree.CompareWeighted$2
 //@   flag noframe
@@ -511,6 +514,28 @@ package tree
 //@   loop 1
 //@     invariant [found_so_far] (n2 == nil && (forall k int :: {n.br[k]} 0 <= k && k <= rangeindex ==> n.br[k].right != n)) || (n2 != nil && (exists k int :: 0 <= k && k <= rangeindex && n.br[k].right == n && n.br[k].left == n2) && (forall k int :: {n.br[k]} 0 <= k && k <= rangeindex && n.br[k].right == n ==> n.br[k].left == n2))
 
+// the name cache used by the editing functions (interface NodeIndex; thin)
+//@ func iface:tree.NodeIndex.GetNode
+//@   assigns nothing
+//@ func iface:tree.NodeIndex.AddNode
+//@   assigns mapof("map[string]*Node")
+
+// InsertIdenticalTips (property C15): every new name of a group is inserted next to the group's existing tip and
+// registered in the name cache right away, so that a later group can refer to it; the indexes are rebuilt at the end
+//@ func (*tree.Tree).InsertIdenticalTips
+//@   flag noframe
+//@   flag countcalls
+//@   requires t != nil
+//@   call (*tree.Tree).InsertIdenticalTip [next_to_the_existing_tip_of_the_group_for_every_new_name] a2 == tip && a0 == t
+//@   call iface:tree.NodeIndex.AddNode [every_inserted_tip_is_registered_before_the_next_insertion] a1 == newtip && ghost(ncalls_AddNode) == ghost(ncalls_InsertIdenticalTip) - 1 + old(ghost(ncalls_AddNode)) - old(ghost(ncalls_InsertIdenticalTip))
+//@   ensures [indexes_rebuilt_on_success] result == nil ==> ghost(ncalls_ReinitIndexes) == old(ghost(ncalls_ReinitIndexes)) + 1 && ghost(ncalls_AddNode) - old(ghost(ncalls_AddNode)) == ghost(ncalls_InsertIdenticalTip) - old(ghost(ncalls_InsertIdenticalTip))
+//@   loop 1
+//@     invariant [every_insertion_so_far_was_registered_and_indexes_not_rebuilt_yet] ghost(ncalls_AddNode) - old(ghost(ncalls_AddNode)) == ghost(ncalls_InsertIdenticalTip) - old(ghost(ncalls_InsertIdenticalTip)) && ghost(ncalls_ReinitIndexes) == old(ghost(ncalls_ReinitIndexes))
+//@   loop 2
+//@     invariant [every_insertion_so_far_was_registered_and_indexes_not_rebuilt_yet] ghost(ncalls_AddNode) - old(ghost(ncalls_AddNode)) == ghost(ncalls_InsertIdenticalTip) - old(ghost(ncalls_InsertIdenticalTip)) && ghost(ncalls_ReinitIndexes) == old(ghost(ncalls_ReinitIndexes))
+//@   loop 3
+//@     invariant [every_insertion_so_far_was_registered_and_indexes_not_rebuilt_yet] ghost(ncalls_AddNode) - old(ghost(ncalls_AddNode)) == ghost(ncalls_InsertIdenticalTip) - old(ghost(ncalls_InsertIdenticalTip)) && ghost(ncalls_ReinitIndexes) == old(ghost(ncalls_ReinitIndexes))
+
 // InsertIdenticalTip (property C15): the new tip is named as asked and registered in the name index; when the tip's
 // branch has a length other than 0 a new inner node takes the tip's place under the parent (the tip's branch keeps its
 // length and now leads to that node), with the new tip and the old tip below it on two branches of length 0; the
@@ -646,6 +671,16 @@ package tree
 //@     invariant [ids_kept] forall n *Node :: {n.id} allocated(n) && len(n.neigh) == 1 ==> 0 <= n.id && n.id < len(lengths)
 
 // Length-threshold clusters (property C14): the flood fill crosses exactly the branches strictly shorter than the threshold
+// TipBag.Tips (property C18): the names are collected (in whatever order the map delivers them), sorted, and the tips
+// are returned in the order of that sorted list - the result is a function of the bag's content
+//@ func (*tree.TipBag).Tips
+//@   flag noframe
+//@   requires tb != nil
+//@   call sort.Strings [the_collected_names_are_sorted_before_use] a0 == names
+//@   return [the_tips_come_in_the_order_of_the_sorted_name_list] len(result0) == len(names) && (forall k int :: {result0[k]} 0 <= k && k < len(result0) ==> result0[k] == (has(tb.tips, names[k]) ? tb.tips[names[k]] : nil))
+//@   loop 2
+//@     invariant [tips_so_far_follow_the_sorted_names] len(v) == rangeindex + 1 && (forall k int :: {v[k]} 0 <= k && k < len(v) ==> v[k] == (has(tb.tips, names[k]) ? tb.tips[names[k]] : nil))
+
 //@ func (*tree.TipBag).AddTip
 //@   requires tb != nil && tb.tips != nil
 //@   allocates iface
@@ -671,6 +706,11 @@ package tree
 //@   requires t != nil && INV12()
 //@   call (*tree.Tree).cutEdgesMaxLengthRecur [flood_starts_only_across_a_branch_strictly_shorter_than_the_threshold] e.length < maxlen && a4 == maxlen
 //@   call (*tree.TipBag).AddTip [tip_of_a_cut_tip_branch_gets_its_own_bag] !(e.length < maxlen) && len(a1.neigh) == 1 && (a1 == e.left || a1 == e.right)
+
+// the order used to sort the tips of the matrix: by the names of the tips being sorted
+//@ func (*tree.Tree).ToDistanceMatrix$1
+//@   flag noframe
+//@   ensures [tips_are_compared_by_their_own_names] result == (tips[i].name < tips[j].name)
 
 //@ func (*tree.Tree).ToDistanceMatrix
 //@   flag noframe
@@ -954,6 +994,7 @@ package tree
 //@   ensures [a_tree_or_an_error] result0 == nil ==> result1 != nil
 //@   call math/rand.Intn [insertion_branch_drawn_among_all_branches_created_so_far] a0 == len(edges)
 //@   call (*tree.Tree).GraftTipOnEdge [new_tip_grafted_on_the_drawn_branch] a2 == edges[i_edge] && a1 == n
+//@   call (*tree.Node).SetName [the_new_tip_is_named_after_its_number_the_first_pair_after_the_previous_number] (a0 == n && a1 == "Tip" + itoa(i)) || (a0 != n && (a1 == "" || a1 == "Tip" + itoa(i - 1)))
 //@   loop 1
 //@     invariant [tree_object] t != nil
 //@     step [first_round_rooted_second_root_branch_gets_a_non_negative_length] len(edges) == 0 && rooted ==> next(edges)[1] != nil && next(edges)[1].length >= 0.0
@@ -975,6 +1016,7 @@ package tree
 //@   ensures [an_unrooted_tree_is_rerooted_on_an_inner_node] result0 != nil ==> ghost(ncalls_RerootFirst) == old(ghost(ncalls_RerootFirst)) + (rooted ? 0 : 1)
 //@   call math/rand.Intn [insertion_tip_drawn_among_all_tips_created_so_far] a0 == len(tips)
 //@   call (*tree.Tree).GraftTipOnEdge [new_tip_grafted_on_the_branch_of_the_drawn_tip] a2 == tips[i_tip].br[0] && a1 == n
+//@   call (*tree.Node).SetName [the_new_tip_is_named_after_its_number_the_first_pair_after_the_previous_number] (a0 == n && a1 == "Tip" + itoa(i)) || (a0 != n && (a1 == "" || a1 == "Tip" + itoa(i - 1)))
 //@   loop 1
 //@     invariant [tree_object] t != nil
 //@     invariant [a_tip_exists_as_soon_as_a_branch_does] len(edges) >= 1 ==> len(tips) >= 1
@@ -991,6 +1033,7 @@ package tree
 //@   ensures [indexes_are_rebuilt_before_the_tree_is_returned] result0 != nil ==> ghost(ncalls_ReinitIndexes) == old(ghost(ncalls_ReinitIndexes)) + 1
 //@   ensures [an_unrooted_tree_is_rerooted_on_an_inner_node] result0 != nil ==> ghost(ncalls_RerootFirst) == old(ghost(ncalls_RerootFirst)) + (rooted ? 0 : 1)
 //@   call (*tree.Tree).GraftTipOnEdge [the_new_tip_is_grafted_on_the_branch_of_the_previous_one] a1 == n && a2 == lasttip.br[0] && i >= 2
+//@   call (*tree.Node).SetName [the_new_tip_is_named_after_its_number_the_first_pair_after_the_previous_number] (a0 == n && a1 == "Tip" + itoa(i)) || (a0 != n && (a1 == "" || a1 == "Tip" + itoa(i - 1)))
 //@   loop 1
 //@     invariant [tree_object] t != nil
 //@     step [the_tip_just_added_is_the_next_grafting_point] next(lasttip) == n && next(i) == i + 1
@@ -1031,6 +1074,8 @@ package tree
 //@ func tree.AllTopologies
 //@   flag noframe
 //@   flag lightcalls
+//@   flag countcalls
+//@   ensures [a_valid_request_is_enumerated_not_rejected] !((nbTips < 3 && !rooted) || (nbTips < 2 && rooted)) && (len(tipNames) == 0 || len(tipNames) == nbTips) ==> ghost(ncalls_allTopologies_recur) == old(ghost(ncalls_allTopologies_recur)) + 1
 //@   ensures [too_few_tips_is_an_error] (nbTips < 3 && !rooted) || (nbTips < 2 && rooted) ==> result1 != nil && result0 == nil
 //@   ensures [a_name_list_of_the_wrong_length_is_an_error] len(tipNames) > 0 && len(tipNames) != nbTips ==> result1 != nil
 //@   call (*tree.Node).SetName [tip_k_takes_the_k_th_given_name] len(tipNames) > 0 ==> a1 == tipNames[total - 1]
